@@ -625,6 +625,44 @@ class BannerVersion(Harness):
         return label
 
 
+class NameControlChars(Harness):
+    """a peer cannot rewrite the auditor's terminal through an algorithm NAME: a name with one arbitrary control character (ESC, CR, BEL, BS, DEL, ...) in any
+    category is rendered by the real output() without that character reaching the text report (the per-algorithm line and the unknown-algorithms notice)."""
+    prop, ob = PROP, 'O7'
+    width = 64
+
+    def __init__(self, cat):
+        self.cat = cat
+        self.name = 'name-control-chars-%s' % cat
+
+    def params(self):
+        return {'cat': self.cat}
+
+    def inputs(self):
+        return {'c': zx.fresh_str('c', 1, ((0x01, 0x09), (0x0B, 0x1F), (0x7F, 0x7F)))}
+
+    def run(self, M, inp):
+        from props import outlib as OL
+        L = {c: ['x'] for c in OL.CATS}
+        L[self.cat] = ['ab' + inp['c'] + 'cd', 'x']
+        r = OL.run_output(M, L)
+        if isinstance(r['ret'], Exc):
+            return {'exc': r['ret']}
+        bad = 0
+        for ln in r['lines']:
+            for i in range(len(ln)):
+                ch = zx.shims.z_ord(ln[i]) if not isinstance(ln, str) else ord(ln[i])
+                if bool(zx.s_and(ch != 10, zx.s_or(ch < 32, ch == 127))):
+                    bad += 1
+        return {'control_chars_in_report': bad, 'ret': r['ret']}
+
+    def check(self, inp, obs):
+        if 'exc' in obs:
+            yield 'no-exception', False
+            return
+        yield 'no-control-character-reaches-the-text-report', obs['control_chars_in_report'] == 0
+
+
 class KexinitTail(Harness):
     """a correctly framed first KEXINIT whose PAYLOAD lacks its last n bytes (the first_kex_packet_follows flag and the reserved uint32 are incomplete): not a
     well-formed handshake - status 1 and no algorithm report; the complete message is accepted."""
@@ -770,6 +808,8 @@ def tasks(tier):
         T.append(PaddingCut(k))
     for n in range(0, 6):
         T.append(KexinitTail(n))
+    for cat in ('kex', 'key', 'enc', 'mac'):
+        T.append(NameControlChars(cat))
     if not q:
         for k in (1, 5):
             T.append(PaddingCut(k, 12))
@@ -798,6 +838,8 @@ def harness_by_name(name, params):
         return AuditFirstConn(params['n'], params['sshv'], params['end'], params['framed'], params.get('dom', 'any'))
     if k.startswith('banner-version'):
         return BannerVersion(params['product'], params['n'])
+    if k.startswith('name-control-chars'):
+        return NameControlChars(params['cat'])
     if k.startswith('kexinit-tail'):
         return KexinitTail(params['n'])
     if k.startswith('padding-cut'):
